@@ -33,7 +33,12 @@ def harness(name, **kw):
     H[name] = kw
 
 
+QUICK = {}  # property -> explicit quick-tier harness list (filled by table.py)
+
+
 def harnesses_for(prop, tier):
+    if tier != "thorough" and prop in QUICK:
+        return [n for n in QUICK[prop] if n in H and prop in H[n]["props"]]
     out = []
     for n, h in H.items():
         if prop in h["props"] and (tier == "thorough" or h["tier"] == "quick"):
